@@ -22,9 +22,11 @@ Signal == <<"SIGHUP", "SIGINT", "SIGQUIT", "SIGILL", "SIGTRAP", "SIGABRT", "SIGE
             "SIGTTIN", "SIGTTOU", "SIGIO", "SIGXCPU", "SIGXFSZ", "SIGVTALRM", "SIGPROF", "SIGWINCH", "SIGINFO", "SIGUSR1", "SIGUSR2">>
 SignalAlias == [n \in 1..31 |-> CASE n = 6 -> {"SIGABRT", "SIGIOT"} [] OTHER -> {Signal[n]}]
 
-AddrFamily == [n \in {0, 1, 2, 17, 18, 27, 30, 32} |->
-                 CASE n = 0 -> {"AF_UNSPEC"} [] n = 1 -> {"AF_UNIX", "AF_LOCAL"} [] n = 2 -> {"AF_INET"} [] n = 17 -> {"AF_ROUTE"}
-                   [] n = 18 -> {"AF_LINK"} [] n = 27 -> {"AF_NDRV"} [] n = 30 -> {"AF_INET6"} [] OTHER -> {"AF_SYSTEM"}]
+AddrFamily == [n \in {0, 1, 2, 11, 12, 16, 17, 18, 23, 27, 28, 30, 31, 32, 33, 34} |->
+                 CASE n = 0 -> {"AF_UNSPEC"} [] n = 1 -> {"AF_UNIX", "AF_LOCAL"} [] n = 2 -> {"AF_INET"} [] n = 11 -> {"AF_SNA"}
+                   [] n = 12 -> {"AF_DECnet"} [] n = 16 -> {"AF_APPLETALK"} [] n = 17 -> {"AF_ROUTE"} [] n = 18 -> {"AF_LINK"}
+                   [] n = 23 -> {"AF_IPX"} [] n = 27 -> {"AF_NDRV"} [] n = 28 -> {"AF_ISDN", "AF_E164"} [] n = 30 -> {"AF_INET6"}
+                   [] n = 31 -> {"AF_NATM"} [] n = 32 -> {"AF_SYSTEM"} [] n = 33 -> {"AF_NETBIOS"} [] OTHER -> {"AF_PPP"}]
 SockType == <<"SOCK_STREAM", "SOCK_DGRAM", "SOCK_RAW", "SOCK_RDM", "SOCK_SEQPACKET">>
 SolSocket == 65535
 
